@@ -3,6 +3,7 @@ package harness
 import (
 	"encoding/json"
 	"fmt"
+	"math/big"
 	"sort"
 	"testing"
 
@@ -24,6 +25,23 @@ var rvOther = []string{"evm", "xibc", "aggregate", "gov", "slashing", "ibc", "tr
 
 const rvFunderBalance = 10
 
+// rvUnit: one model unit is 2^64+1 base units, so that every non-zero amount of the behaviours lies above 2^63 and 2^64
+// (amounts that do not fit machine integers) while sums and minima stay exact multiples.
+var rvUnit = new(big.Int).Add(new(big.Int).Lsh(big.NewInt(1), 64), big.NewInt(1))
+
+func rvCoin(d string, n int64) sdk.Coin {
+	return sdk.NewCoin(d, sdk.NewIntFromBigInt(new(big.Int).Mul(big.NewInt(n), rvUnit)))
+}
+
+// rvUnits: base units -> model units (-999: not a multiple)
+func rvUnits(x sdk.Int) int64 {
+	q, r := new(big.Int).QuoRem(x.BigInt(), rvUnit, new(big.Int))
+	if r.Sign() != 0 || !q.IsInt64() {
+		return -999
+	}
+	return q.Int64()
+}
+
 // rvState projects the application to RVesting.tla's state.
 func rvState(c *Chain) M {
 	ctx := c.Ctx()
@@ -32,15 +50,15 @@ func rvState(c *Chain) M {
 	distAddr := authtypes.NewModuleAddress(distrtypes.ModuleName)
 	pool, sink, supply, rest := M{}, M{}, M{}, M{}
 	for _, d := range rvDenoms {
-		p := c.Bal(poolAddr, d).Int64()
-		s := c.Bal(collAddr, d).Int64() + c.Bal(distAddr, d).Int64()
-		sup := c.App.BankKeeper.GetSupply(ctx, d).Amount.Int64()
+		p := rvUnits(c.Bal(poolAddr, d))
+		s := rvUnits(c.Bal(collAddr, d).Add(c.Bal(distAddr, d)))
+		sup := rvUnits(c.App.BankKeeper.GetSupply(ctx, d).Amount)
 		pool[d], sink[d], supply[d], rest[d] = p, s, sup, sup-p-s
 	}
 	ps := c.App.RVestingKeeper.GetParams(ctx)
 	rw := []M{}
 	for _, co := range ps.PerBlockReward {
-		rw = append(rw, M{"denom": co.Denom, "amt": co.Amount.Int64()})
+		rw = append(rw, M{"denom": co.Denom, "amt": rvUnits(co.Amount)})
 	}
 	return M{"pool": pool, "sink": sink, "supply": supply, "rest": rest,
 		"params": M{"enabled": ps.EnableVesting, "reward": rw}}
@@ -75,7 +93,7 @@ func rvMoved(c *Chain) M {
 		}
 		for _, co := range coins {
 			if v, ok := out[co.Denom]; ok {
-				out[co.Denom] = v.(int64) + co.Amount.Int64()
+				out[co.Denom] = v.(int64) + rvUnits(co.Amount)
 			}
 		}
 	}
@@ -91,7 +109,7 @@ func rvParamsFromModel(p M) (bool, string) {
 	var cs []coin
 	for _, e := range rw {
 		m := e.(M)
-		cs = append(cs, coin{Denom: str(m["denom"]), Amount: fmt.Sprint(num(m["amt"]))})
+		cs = append(cs, coin{Denom: str(m["denom"]), Amount: new(big.Int).Mul(big.NewInt(num(m["amt"])), rvUnit).String()})
 	}
 	bz, _ := json.Marshal(cs)
 	return p["enabled"].(bool), string(bz)
@@ -140,12 +158,12 @@ func driveRVesting(t *testing.T, in, out string, seed int64) {
 		sort.Strings(keys)
 		for _, d := range keys {
 			if n := num(initPool[d]); n > 0 {
-				reward = append(reward, sdk.NewInt64Coin(d, n))
+				reward = append(reward, rvCoin(d, n))
 			}
 		}
 		extra := sdk.NewCoins()
 		for _, d := range rvDenoms {
-			extra = extra.Add(sdk.NewInt64Coin(d, rvFunderBalance))
+			extra = extra.Add(rvCoin(d, rvFunderBalance))
 		}
 		c := NewChain(ChainOpts{ChainID: "teleport_9000-10", Accts: []Acct{funder}, Coins: map[string]sdk.Coins{"funder": extra},
 			Mutate: func(a *app.Teleport, gs simapp.GenesisState) {
@@ -157,6 +175,7 @@ func driveRVesting(t *testing.T, in, out string, seed int64) {
 				}
 				gs[rvestingtypes.ModuleName] = a.AppCodec().MustMarshalJSON(g)
 			}})
+		RoundTripAtEnd("rvesting", bi, map[string]*Chain{"host": c})
 		// set-up (not under test): install the behaviour's initial parameters
 		en, rw := rvParamsFromModel(init["params"].(M))
 		var coins sdk.Coins
